@@ -58,6 +58,12 @@ fn alphabet(n: usize, tier: Tier) -> Vec<Dev> {
                 }));
             }
         }
+        // to_string wins even when a serialize literal is strictly longer (one deviation, so that it combines with prefix / const_into_str / styles at k = 2)
+        d.push(dev(format!("v{}.to_string=\"t\"+serialize=[\"zz\",\"longer\"]", i), &[&format!("tos{}", i), &format!("ser{}", i)], move |s| {
+            s.variants[i].to_string = Some("t".into());
+            s.variants[i].serialize = vec!["zz".into(), "longer".into()];
+            true
+        }));
         for l in ["t", "tttt", "É"] {
             d.push(dev(format!("v{}.to_string={:?}", i, l), &[&format!("tos{}", i)], move |s| {
                 s.variants[i].to_string = Some(l.to_string());
